@@ -2190,3 +2190,138 @@ int main(void) {
     if has_name(g, 'yy_top_state'):
         txt = txt.replace('#define VP_NPUSH', '#define VP_HAS_TOP_STATE 1\n#define VP_NPUSH', 1)
     return txt
+
+
+# ---------------------------------------------------------------------------
+# RD: the generated input routine yyread() against an environment whose every
+# stdio / read(2) result is a solver variable within the documented contract
+
+def yyread_harness(g, cfg, spec, variant, m=3, k=3, cap=3, witness=False):
+    """variant: 'fread' (batch stdio), 'getc' (interactive stdio), 'read' (%option read).
+    Logical source = m symbolic bytes; each call of the environment function
+    delivers a solver-chosen number of them and optionally reports EINTR or a
+    hard error.  One call of the scanner's own yyread()."""
+    pre = r'''
+#include <errno.h>
+#include <unistd.h>
+#undef getc
+#undef ferror
+#undef clearerr
+#undef fileno
+static size_t vp_fread(void *p, size_t sz, size_t nm, FILE *fp);
+static int vp_ferror(FILE *fp); static void vp_clearerr(FILE *fp); static int vp_getc(FILE *fp);
+static long vp_read2(int fd, void *p, size_t n); static int vp_fileno(FILE *fp);
+#define fread vp_fread
+#define ferror vp_ferror
+#define clearerr vp_clearerr
+#define getc vp_getc
+#define read vp_read2
+#define fileno vp_fileno
+'''
+    h = common_head(g, cfg, spec, 1)
+    marker = '#include "%s"' % os.path.basename(g.cpath)
+    h = h.replace(marker, pre + '\n' + marker)
+    H = ['#define VP_M %d' % m, '#define VP_K %d' % k, '#define VP_CAP %d' % cap,
+         '#define VP_VARIANT_%s 1' % variant.upper(), h]
+    if witness:
+        H.append('#define VP_WITNESS 1')
+    H.append(r'''
+#undef fread
+#undef ferror
+#undef clearerr
+#undef getc
+#undef read
+#undef fileno
+unsigned char vpi_src[VP_M];
+int vpi_d[VP_K], vpi_err[VP_K], vpi_max, vpi_avail;
+static int vp_fake_file, vp_calls, vp_pos, vp_errflag, vp_eof, vp_hard, vp_eintr_seen, vp_lost;
+static char vp_out[VP_CAP + 2];
+static struct yy_buffer_state vp_bs;
+static yybuffer vp_stack[1];
+
+/* one environment event: hand over d bytes of the logical source, then maybe flag an error */
+static int vp_event(char *dst, size_t want) {
+  int i = vp_calls++;
+  VP_ASSUME(i < VP_K);                           /* more events than the bound: outside the claim */
+  int d = vpi_d[i], e = vpi_err[i];
+  VP_ASSUME(d >= 0 && (size_t)d <= want && d <= vpi_avail - vp_pos);
+  VP_ASSUME(e == 0 || e == 1 || e == 2);
+  for (int j = 0; j < VP_M; j++) if (j < d) dst[j] = (char)vpi_src[vp_pos + j];
+  vp_pos += d;
+  if (e) { vp_errflag = 1; errno = (e == 1) ? EINTR : EIO; if (e == 1) vp_eintr_seen = 1; if (d == 0 && e == 2) { vp_hard = 1; vp_expect_fatal = 1; } }
+  else if ((size_t)d < want) { VP_ASSUME(vp_pos == vpi_avail); vp_eof = 1; }   /* short count without error only at end of file */
+  return d;
+}
+static size_t vp_fread(void *p, size_t sz, size_t nm, FILE *fp) {
+  VP_ASSERT(fp == (FILE *)&vp_fake_file && sz == 1, "fread on yyin, element size 1");
+  return (size_t)vp_event((char *)p, nm);
+}
+static long vp_read2(int fd, void *p, size_t n) {
+  VP_ASSERT(fd == 7, "read on fileno(yyin)");
+  /* read(2): an error delivers nothing and returns -1 */
+  int i = vp_calls;
+  VP_ASSUME(i < VP_K);
+  if (vpi_err[i]) VP_ASSUME(vpi_d[i] == 0);
+  int d = vp_event((char *)p, n);
+  return vpi_err[i] ? -1 : d;
+}
+static int vp_getc(FILE *fp) {
+  /* getc: byte after byte; an event with d == 0 is EOF / error, d >= 1 hands over ONE byte */
+  VP_ASSERT(fp == (FILE *)&vp_fake_file, "getc on yyin");
+  int i = vp_calls;
+  VP_ASSUME(i < VP_K + VP_M);
+  char c;
+  if (vp_pos < vpi_avail && !(i < VP_K && vpi_d[i] == 0)) { vp_calls++; c = (char)vpi_src[vp_pos++]; return (unsigned char)c; }
+  VP_ASSUME(i < VP_K && vpi_d[i] == 0);
+  int e = vpi_err[i]; vp_calls++;
+  VP_ASSUME(e == 0 || e == 1 || e == 2);
+  if (e) { vp_errflag = 1; errno = (e == 1) ? EINTR : EIO; if (e == 1) vp_eintr_seen = 1; if (e == 2) { vp_hard = 1; vp_expect_fatal = 1; } }
+  else { VP_ASSUME(vp_pos == vpi_avail); vp_eof = 1; }
+  return EOF;
+}
+static int vp_ferror(FILE *fp) { return vp_errflag; }
+static void vp_clearerr(FILE *fp) { vp_errflag = 0; }
+static int vp_fileno(FILE *fp) { return 7; }
+
+int main(void) {
+  VP_DECL_SCANNER
+#ifdef REPLAY
+#include "vp_replay_set.inc"
+#else
+  for (int i = 0; i < VP_M; i++) vpi_src[i] = nondet_uchar();
+  for (int i = 0; i < VP_K; i++) { vpi_d[i] = nondet_int(); vpi_err[i] = nondet_int(); }
+  vpi_max = nondet_int(); vpi_avail = nondet_int();
+#endif
+  VP_ASSUME(vpi_max >= 1 && vpi_max <= VP_CAP);
+  VP_ASSUME(vpi_avail >= 0 && vpi_avail <= VP_M);
+  VP_INIT_SCANNER();
+  vp_bs.yy_input_file = (FILE *)&vp_fake_file;
+  vp_bs.yy_ch_buf = vp_out; vp_bs.yy_buf_pos = vp_out;
+  vp_bs.yy_buf_size = VP_CAP; vp_bs.yy_n_chars = 0;
+  vp_bs.yy_is_our_buffer = 1; vp_bs.yy_fill_buffer = 1; vp_bs.yy_buffer_status = YY_BUFFER_NORMAL;
+#ifdef VP_VARIANT_GETC
+  vp_bs.yy_is_interactive = 1;
+#else
+  vp_bs.yy_is_interactive = 0;
+#endif
+  vp_stack[0] = &vp_bs;
+  VP_G(yy_buffer_stack) = vp_stack; VP_G(yy_buffer_stack_top) = 0; VP_G(yy_buffer_stack_max) = 1;
+  VP_G(yy_init) = 1; VP_G(yy_start) = 1;
+  yyin = (FILE *)&vp_fake_file;
+  errno = 0;
+
+  int result = yyread(vp_out, (size_t)vpi_max VP_A1);
+
+  /* normal return: the fatal-error hook ends the path, so a hard error reported by the source must not get here */
+  VP_ASSERT(!vp_hard, "a read error reported by the input source is never absorbed");
+  VP_ASSERT(result >= 0 && result <= vpi_max, "result within the requested size");
+  VP_ASSERT(result == vp_pos, "every byte handed over by the source is returned exactly once (none lost to a retry)");
+  for (int j = 0; j < VP_CAP; j++) if (j < result) VP_ASSERT((unsigned char)vp_out[j] == vpi_src[j], "bytes arrive in source order, not overwritten by a retried read");
+  if (result == 0) VP_ASSERT(vp_eof, "end of input is reported only when the source reported end of file");
+#ifdef VP_WITNESS
+  VP_ASSERT(!(vp_eintr_seen && result > 0 && vp_calls >= 2), "WITNESS: an interrupted read is retried and delivers input");
+#endif
+  return 0;
+}
+''')
+    return '\n'.join(H)
